@@ -186,8 +186,9 @@ void run_exec(const Execution &ex) {
     g_args = (int) ex.cfg.num("args", 0);
     g_fin_logged = false;
     if (rd_atomic_yield) rd_atomic_yield((int) ex.cfg.num("ay", 0));
+    if (rd_access_yield) rd_access_yield((int) ex.cfg.num("accy", 0), (unsigned) ex.cfg.num("seed", 1));
     Ctl ctl;
-    ctl.max_steps = 2000;
+    ctl.max_steps = ex.cfg.num("accy", 0) ? 40000 : 2000;
     if (ex.cfg.str("mode", "script") == "script") {
         ctl.mode = vs::BaseController::SCRIPT;
         vs::ScriptStep s0;
